@@ -867,3 +867,122 @@ Fixpoint count_generates (evs : list event) : nat :=
   | EOp _ :: evs' => count_generates evs'
   | EGenerate _ :: evs' => S (count_generates evs')
   end.
+
+(* ====================================================================================== *)
+(* per-REGISTRATION specification: the ledger                                             *)
+(* ====================================================================================== *)
+(* own_chain speaks of a FUNCTION (the filters of its last registration expression).  The property speaks of
+   REGISTRATIONS: one function object may be registered several times (other dispatcher, other name, again after
+   an unregistration), each time with the filters written in THAT expression, or with none.  The ledger is the
+   specification-side bookkeeping: one entry per accepted registration, in registration order, carrying the chain
+   of its own expression as a value (function form), the decorator it came through (named form) or nothing
+   (HookDispatcher.apply / register_hook_with_name: no filter expression at all); unregister(f) on a dispatcher
+   removes the entries of f on that dispatcher, unregister_all all entries of that dispatcher.
+   It is computed from the specification state only (value semantics, no heap, no function attributes). *)
+Record entry := { e_disp : nat; e_name : hname; e_fn : N; e_own : option own }.
+
+(* _validate_hook accepts (scopes = the scope of every dispatcher) *)
+Definition accepted (scopes : list scope) (di : nat) (n : hname) (f : hookfn) : bool :=
+  match nth_error scopes di with
+  | Some sc => match validate_hook sc n f with Done => true | _ => false end
+  | None => false
+  end.
+
+Definition entry_on (di : nat) (n : hname) (e : entry) : bool := Nat.eqb di (e_disp e) && hname_eqb n (e_name e).
+
+Definition ledger_add (scopes : list scope) (lg : list entry) (di : nat) (n : hname) (f : hookfn) (w : option own) : list entry :=
+  if accepted scopes di n f then lg ++ [{| e_disp := di; e_name := n; e_fn := h_id f; e_own := w |}] else lg.
+
+(* ss = the specification state BEFORE the operation; closures = the dispatcher each closure registers on *)
+Definition ledger_step (scopes : list scope) (closures : list nat) (ss : sstate) (lg : list entry) (o : op) : list entry :=
+  match o with
+  | ORegFn ri f =>
+      match nth_error (s_regs ss) ri, nth_error closures ri with
+      | Some r, Some di =>
+          if s_used r && nonfilterable (h_name f) then lg
+          else ledger_add scopes lg di (h_name f) f (Some (OwnVal (s_pending r)))
+      | _, _ => lg
+      end
+  | ODecApply d f =>
+      match nth_error (s_decs ss) d with
+      | None => lg
+      | Some sd =>
+          match nth_error (s_regs ss) (sd_reg sd), nth_error closures (sd_reg sd) with
+          | Some r, Some di =>
+              if s_used r && nonfilterable (sd_name sd) then lg
+              else ledger_add scopes lg di (sd_name sd) f (Some (OwnDec d))
+          | _, _ => lg
+          end
+      end
+  | ODirect di f n => ledger_add scopes lg di n f None
+  | OUnregister di f => filter (fun e => negb (Nat.eqb di (e_disp e) && N.eqb (e_fn e) f)) lg
+  | OUnregisterAll di => filter (fun e => negb (Nat.eqb di (e_disp e))) lg
+  | OFilter _ _ _ | ORegName _ _ | ODecFilter _ _ _ => lg
+  end.
+
+Fixpoint ledger_from (scopes : list scope) (closures : list nat) (ss : sstate) (lg : list entry) (ops : list op)
+  : sstate * list entry :=
+  match ops with
+  | [] => (ss, lg)
+  | o :: ops' => ledger_from scopes closures (spec_step ss o) (ledger_step scopes closures ss lg o) ops'
+  end.
+
+Definition ledger (scopes : list scope) (closures : list nat) (ops : list op) : list entry :=
+  snd (ledger_from scopes closures (spec_init closures) [] ops).
+
+Definition opt_fs (x : option fset) : fset := match x with Some v => v | None => fs_empty end.
+
+(* the chain written in the registration expression of this entry *)
+Definition entry_chain (ss : sstate) (e : entry) : option fset :=
+  match e_own e with
+  | None => None
+  | Some (OwnVal v) => Some v
+  | Some (OwnDec d) => Some (match nth_error (s_decs ss) d with Some sd => sd_val sd | None => fs_empty end)
+  end.
+
+(* THE PROPERTY, per registration: it applies to exactly the operations its own chain selects; no chain or an
+   empty chain = everywhere; a context without operation is never filtered *)
+Definition entry_selects (ss : sstate) (e : entry) (ctx : option oper) : bool :=
+  match ctx with Some o => fset_match (opt_fs (entry_chain ss e)) o | None => true end.
+
+Definition spec_dispatch (ss : sstate) (lg : list entry) (di : nat) (n : hname) (ctx : option oper) : list N :=
+  map e_fn (filter (fun e => entry_on di n e && entry_selects ss e ctx) lg).
+
+Definition spec_apply_to_container (ss : sstate) (lg : list entry) (di : nat) (t : target) (ctx : option oper) : list (hk * N) :=
+  flat_map (fun k => map (fun f => (k, f)) (spec_dispatch ss lg di (NGen k t) ctx)) kinds.
+
+(* ---------- region predicate of finding F5 ---------- *)
+(* strict (Leibniz-reflecting) equality of filter sets: opaque matchers by identity AND table *)
+Definition opaque_beq (p q : opaque) : bool := N.eqb (q_id p) (q_id q) && str_eqb (q_table p) (q_table q).
+Definition matcher_beq (m1 m2 : matcher) : bool :=
+  match m1, m2 with
+  | MVal a e, MVal a' e' => attr_eqb a a' && expected_eqb e e'
+  | MOpaque q, MOpaque q' => opaque_beq q q'
+  | _, _ => false
+  end.
+Fixpoint list_beq {A} (eq : A -> A -> bool) (a b : list A) : bool :=
+  match a, b with
+  | [], [] => true
+  | x :: a', y :: b' => eq x y && list_beq eq a' b'
+  | _, _ => false
+  end.
+Definition flt_beq : flt -> flt -> bool := list_beq matcher_beq.
+Definition fset_beq (a b : fset) : bool := list_beq flt_beq (incl a) (incl b) && list_beq flt_beq (excl a) (excl b).
+
+(* the filter_set attribute lives on the function object: a registration behaves as its own chain says as long as
+   the chain of the LAST filter-carrying registration expression of its function is the same chain (it is that
+   expression, or the function was registered again with identical filters, or - for an entry without expression -
+   the function never went through a filterable form or did so with no filters) *)
+Definition entry_current (ss : sstate) (e : entry) : bool :=
+  fset_beq (opt_fs (entry_chain ss e)) (opt_fs (own_chain ss (e_fn e))).
+
+(* what the correspondence stage reuse_histories compares: per operation, dispatcher and target the transformations the
+   code applies (model of the code) and the ones the per-registration specification demands; the ledger with the region flag *)
+Definition ledger_observe (scopes : list scope) (closures : list nat) (ops : list op) (univ : list oper) :=
+  let st := fst (run scopes closures ops) in
+  let ss := spec_run closures ops in
+  let lg := ledger scopes closures ops in
+  (map (fun o => map (fun di => map (fun tg => (apply_to_container st di tg (Some o),
+                                                 spec_apply_to_container ss lg di tg (Some o))) all_targets)
+                     (seq 0 (length scopes))) univ,
+   map (fun e => (e_disp e, e_name e, e_fn e, entry_current ss e)) lg).
